@@ -22,6 +22,7 @@ EXTENDS Integers, Sequences, TLC, Json, FiniteSets
 
 CONSTANTS Kinds,       \* subset of {"cdef", "cpdef", "meth", "cpmeth"}
           CrossPtr,    \* TRUE: pointer types with every specification (assignability study)
+          Legacy,      \* subset of BOOLEAN: directive legacy_implicit_noexcept (only for cdef functions / methods)
           Dump
 
 Specs  == {"exc_v", "exc_q", "exc_star", "noexc", "dflt"}
@@ -57,21 +58,24 @@ CtxOf(kd, rt) == {x \in Ctxs : /\ x = "py" => kd \in {"cpdef", "cpmeth"}
                                /\ x = "fptr" => kd = "cdef"
                                /\ x = "nogil" => (kd \in {"cdef", "meth"} /\ rt # "object")}
 Bodies(rt)    == {"raise", "fall"} \cup Vals(rt)
+LegacyOf(kd)  == IF kd \in {"cdef", "meth"} THEN Legacy ELSE Legacy \ {TRUE}
 PtrSpecs(rt)  == UNION {{<<ps, pv>> : pv \in SvOf(ps, rt)} : ps \in Specs}
 PtrOf(x, sp, sv, rt) == IF x # "fptr" THEN {<<"none", "none">>}
                         ELSE IF CrossPtr THEN PtrSpecs(rt) ELSE {<<sp, sv>>}
 Cases == UNION {UNION {UNION {UNION {UNION {
-           {[kind |-> kd, spec |-> sp, rt |-> rt, sv |-> sv, body |-> b, ctx |-> x, pspec |-> p[1], psv |-> p[2]] :
-               b \in Bodies(rt), p \in PtrOf(x, sp, sv, rt)}
+           {[kind |-> kd, spec |-> sp, rt |-> rt, sv |-> sv, body |-> b, ctx |-> x, pspec |-> p[1], psv |-> p[2], lg |-> lg] :
+               b \in Bodies(rt), p \in PtrOf(x, sp, sv, rt), lg \in LegacyOf(kd)}
            : x \in CtxOf(kd, rt)} : sv \in SvOf(sp, rt)} : sp \in Specs} : rt \in RTOf(kd)} : kd \in Kinds}
 
 ---------------------------------------------------------------------------
 (* reference *)
 BodyVal(c) == IF c.body = "fall" THEN ZeroOf(c.rt) ELSE c.body
 Misuse(c) == c.spec = "exc_v" /\ c.body # "raise" /\ BodyVal(c) = c.sv
+\* "legacy_implicit_noexcept: the function will behave in the same way as if declared with noexcept"
+Declared(c) == IF c.lg /\ c.spec = "dflt" THEN "noexc" ELSE c.spec
 Ref(c) ==
   IF c.body = "raise"
-    THEN IF c.rt # "object" /\ c.spec = "noexc"
+    THEN IF c.rt # "object" /\ Declared(c) = "noexc"
            THEN [k |-> "val", v |-> ZeroOf(c.rt), hooks |-> 1]
            ELSE [k |-> "exc", v |-> "KeyError", hooks |-> 0]
   ELSE IF Misuse(c) THEN [k |-> "anyexc", v |-> "none", hooks |-> 0]
@@ -80,19 +84,19 @@ Ref(c) ==
 ---------------------------------------------------------------------------
 (* implementation-shaped *)
 \* the function type as analysed: exception value, PyErr_Occurred check, object protocol
-Eff(spec, rt, sv, inclass, isptr) ==
+Eff(spec, rt, sv, inclass, isptr, legacy) ==
   IF rt = "object" THEN [ev |-> "NULLOBJ", ec |-> FALSE, obj |-> TRUE]   \* clause ignored / rejected for objects
   ELSE CASE spec = "exc_v" -> [ev |-> sv, ec |-> FALSE, obj |-> FALSE]
          [] spec = "exc_q" -> [ev |-> sv, ec |-> TRUE, obj |-> FALSE]
-         [] spec \in {"exc_star", "dflt"} ->
+         [] spec = "exc_star" \/ (spec = "dflt" /\ ~legacy) ->
               [ev |-> IF ~inclass /\ ~isptr THEN DefExc(rt) ELSE "none", ec |-> TRUE, obj |-> FALSE]
-         [] spec = "noexc" -> [ev |-> "none", ec |-> FALSE, obj |-> FALSE]
+         [] spec = "noexc" \/ (spec = "dflt" /\ legacy) -> [ev |-> "none", ec |-> FALSE, obj |-> FALSE]
 
-CalleeEff(c) == Eff(c.spec, c.rt, c.sv, c.kind \in {"meth", "cpmeth"}, FALSE)
-StarEff(c)   == Eff("exc_star", c.rt, "none", FALSE, FALSE)
+CalleeEff(c) == Eff(c.spec, c.rt, c.sv, c.kind \in {"meth", "cpmeth"}, FALSE, c.lg)
+StarEff(c)   == Eff("exc_star", c.rt, "none", FALSE, FALSE, c.lg)
 Hops(c) ==
   CASE c.ctx \in {"def", "py"}     -> << [callee |-> CalleeEff(c), caller |-> CalleeEff(c)] >>
-    [] c.ctx = "fptr"              -> << [callee |-> CalleeEff(c), caller |-> Eff(c.pspec, c.rt, c.psv, FALSE, TRUE)] >>
+    [] c.ctx = "fptr"              -> << [callee |-> CalleeEff(c), caller |-> Eff(c.pspec, c.rt, c.psv, FALSE, TRUE, c.lg)] >>
     [] c.ctx \in {"cdef", "nogil"} -> << [callee |-> CalleeEff(c), caller |-> CalleeEff(c)],
                                          [callee |-> StarEff(c), caller |-> StarEff(c)] >>
 
@@ -166,13 +170,13 @@ ErrConsistent == (pc = "done" /\ ~hazard /\ SamePtr(c)) =>
                     /\ out.k = "exc" => err = out.v
 (* no frame ever continues normally with a pending error, none fails without one (off misuse) *)
 NoStale == (pc \in {"exit", "deliver"} /\ SamePtr(c) /\ ~Misuse(c)) => (inerr <=> err # "none")
-HookOnce == hooks <= 1 /\ (hooks = 1 => c.spec = "noexc" /\ c.body = "raise" /\ c.rt # "object")
+HookOnce == hooks <= 1 /\ (hooks = 1 => Declared(c) = "noexc" /\ c.body = "raise" /\ c.rt # "object")
 (* hazards are exactly the misuse cells *)
 HazardOnlyMisuse == (pc = "done" /\ SamePtr(c)) => (hazard <=> Misuse(c))
 
 Publish == (pc = "done" /\ Dump) =>
   PrintT("@@" \o ToJson([kind |-> c.kind, spec |-> c.spec, rt |-> c.rt, sv |-> c.sv, body |-> c.body, ctx |-> c.ctx,
-                         pspec |-> c.pspec, psv |-> c.psv,
+                         pspec |-> c.pspec, psv |-> c.psv, lg |-> c.lg,
                          k |-> Ref(c).k, v |-> Ref(c).v, hooks |-> Ref(c).hooks, misuse |-> Misuse(c),
                          hazard |-> hazard, agrees |-> Agrees, nhops |-> Len(Hops(c)),
                          ev |-> CalleeEff(c).ev, ec |-> CalleeEff(c).ec]))
